@@ -43,6 +43,13 @@ def check_text(case, stats, pid):
     if res[0] != "ok":
         raise Violation(case, "well-formed document rejected: %r\n%s" % (res[1][:3], r.text))
     pc.compare(case, res[2], ref, PROJ[pid], "pickles of a parsed document\n" + r.text)
+    if case["doc"]["default"] == "en" and len(r.text) % 3 == 0:
+        # the same pickles when they are asked for through the stream API: Options(print_source, print_ast, print_pickles) given by position
+        ev = gh.GherkinEvents(gh.GherkinEvents.Options(False, False, True))
+        out = list(ev.enum({"source": {"uri": URI, "data": r.text, "mediaType": "text/x.cucumber.gherkin+plain"}}))
+        if any(list(e) != ["pickle"] for e in out):
+            raise Violation(case, "a stream asked for pickles only yields %r\n%s" % ([list(e) for e in out][:4], r.text))
+        pc.compare(case, [e["pickle"] for e in out], ref, PROJ[pid], "pickles of a document sent through the stream API (pickles only)\n" + r.text)
 
 
 def check_rawtext(case, stats):
